@@ -117,8 +117,12 @@ class TBRMatchedMarkets:
     if n_geos_max is not None and len(geos) > n_geos_max:
       geos_with_max_impact = list(
           self.geo_req_impact.sort_values(ascending=False).index)
-      geos_in_order = list(geo for geo in geos_with_max_impact if geo in geos)
-      geos = set(geos_in_order[:n_geos_max])
+      # Geos that must be included are never dropped.
+      must_include = self.geos_must_include
+      geos_in_order = list(geo for geo in geos_with_max_impact
+                           if geo in geos and geo not in must_include)
+      n_others = max(0, n_geos_max - len(must_include))
+      geos = must_include | set(geos_in_order[:n_others])
     return geos
 
   @property
